@@ -78,7 +78,8 @@ fn callback_case(n: usize, stop: usize, sink: Sink, path: Path) -> R {
     let drops_scope = DropScope::new();
     let lazy = matches!(path, Path::FeedIntoByRef | Path::FeedIntoMutByRef | Path::ExtendByRef);
     let items: Vec<Dc> = if lazy { Vec::new() } else { (1..=n as u64).map(Dc::new).collect() };
-    let mut src = (1..=n as u64).map(Dc::new);
+    // lazy source of unknown length (size_hint lower bound 0), unlike the exact-size Vec used by the other paths
+    let mut src = (1..=n as u64).map(Dc::new).filter(|_| true);
     let expect_offered = if sink == Sink::Closure && stop != 0 && stop <= n { stop } else { n };
     let mut seen: Vec<u64> = Vec::with_capacity(n + 1);
     let mut calls_after_stop = 0usize;
@@ -384,7 +385,7 @@ fn main() {
             name: "callbacks",
             explore: Box::new(|cx: &Cx| {
                 let n_max = cx.tier.pick(4, 7);
-                cx.rule("callbacks", &format!("item sequences of length 0..={} (drop-counting items) x stop position (never, every position 1..=len, one past the end) x sink {{closure, &mut Vec, from_extend VecDeque, from_extend custom Extend}} x path {{call loop, feed_into, feed_into_mut, Extend::extend, Callbackable on OpaqueCallback / &mut OpaqueCallback, and feed_into / feed_into_mut / extend from a lazy source passed by_ref()}}; oracle: the source is advanced by exactly the offered items, sink sees exactly the offered prefix in order, nothing after the first false, reported count == items offered, each item dropped or held exactly once", n_max));
+                cx.rule("callbacks", &format!("item sequences of length 0..={} (drop-counting items) x stop position (never, every position 1..=len, one past the end) x sink {{closure, &mut Vec, from_extend VecDeque, from_extend custom Extend}} x path {{call loop, feed_into, feed_into_mut, Extend::extend, Callbackable on OpaqueCallback / &mut OpaqueCallback, and feed_into / feed_into_mut / extend from a lazy source of unknown length (size_hint lower bound 0) passed by_ref()}}; oracle: the source is advanced by exactly the offered items, sink sees exactly the offered prefix in order, nothing after the first false, reported count == items offered, each item dropped or held exactly once", n_max));
                 for n in 0..=n_max {
                     for sink in SINKS {
                         let stops: Vec<usize> = if sink == Sink::Closure { (0..=n + 1).collect() } else { vec![0] };
